@@ -899,7 +899,10 @@ impl TwoFloat {
         // digits, so no matter what strategy we choose here, the convergence
         // needs to go out to x = log(1.5) = 0.22. We have it work for until a
         // quarter, because that's a nice round power of two.
-        assert!(self.hi().abs() <= 0.25);
+        // The reduction in exp() leaves |hi| <= 1/4 plus the rounding of the low
+        // word, e.g. exp((1.25, -2^-53)); anything below 1/4 + 1/256 still maps
+        // to a table index |n| <= 32.
+        assert!(self.hi().abs() < 0.25 + 1.0 / 256.0);
 
         // The idea is to use the identity
         //
